@@ -6,7 +6,13 @@ executable.  Every case = a determined base network (2-D with up to three
 placements of the two new points, 3-D, levelling) with one or two injected
 defects, for tol-abs in {10, 1000} mm, sigma-apr in {1, 10, 100}, run with all
 four algorithms; whenever something was excluded the input with exactly the
-excluded items deleted is run as well (two-run relation)."""
+excluded items deleted is run as well (two-run relation).
+
+Two further families (lib/n14_model.py enumerate_positions / enumerate_dsets, sigma-apr 10 and angular
+stdev 10 so that the known finding D10 cannot interfere): POSITION - the cluster list of the input rotated
+through every position, a blunder in every scalar of the input in turn (the last one included), every
+structural defect at every cluster position; DIRECTION SETS WITH REPEATED TARGETS - every target pattern
+of length 3..4 over 2..3 targets with a blunder at every position and at every pair of positions."""
 import os, sys, json
 sys.path.insert(0, os.path.join(os.path.dirname(os.path.abspath(__file__)), "..", "lib"))
 import vlib, gnet
@@ -25,7 +31,20 @@ RULE = ("all determined base networks {2-D: 3 fixed + 2 new lattice points (quic
         "agree, observed exclusion set = reference structural closure; (2) excluded for its absolute term <=> reference "
         "positional misclosure (manual: |d-d0|, |b|*d0 with the median orientation, angles: longer arm) > tol-abs; "
         "(3) result == result of the input with exactly the excluded items deleted (coordinates, residuals, [pvv], dof, "
-        "stdevs, orientations, covariances); state = one generated input, transition = one gama-local execution")
+        "stdevs, orientations, covariances); "
+        "POSITION family (sigma-apr 10, every angular stdev 10): templates 2-D / 3-D / levelling with the cluster list of the "
+        "complete input rotated left by every r in 0..#clusters-1 (every cluster is the first and the last of the input) x "
+        "{no defect | blunder in EVERY scalar of the input in turn, first to LAST, vectors / coordinate records per component and "
+        "as a whole record, f in {0.9,1.1} (thorough: all six, three 2-D placements) x tol-abs {10,1000} | every structural defect "
+        "at every rotation, tol-abs 1000 (thorough: 10 too)}; REPEATED-TARGET family: one direction set with the target word w, "
+        "every w of length 3..4 over 2..3 targets up to renaming (4+13 words incl. closing the horizon; thorough: all 24+78 words "
+        "over {A,B,C}), station = new point with the determining distances behind the directions in the same cluster (DP) / "
+        "station = fixed point, targets new+fixed, the set is the last cluster (DF), x tol-abs {10,1000} x {no blunder | blunder at "
+        "every position, f {0.9,1.1} (thorough: six) | nominal blunders at every pair of positions, sizes (1.1,1.1) (thorough: "
+        "{0.9,1.1}^2)}; the same three oracles, and in addition per execution (4) every row of the text listing 'Outlying absolute "
+        "terms' shows the reference absolute term of its observation (mm / cc, 3e-5 relative) and the number of rows == "
+        "observations given - observations in the adjustment - observations unusable for structural reasons (reference closure); "
+        "state = one generated input, transition = one gama-local execution")
 
 
 def main():
@@ -87,6 +106,7 @@ def main():
                 done += 1
                 ck.count("states"); ck.count("transitions", r["runs"]); ck.count("evaluations", r["runs"])
                 ck.count("reduced_runs", r["reduced"]); ck.count("deletion_not_expressible", r["skipped3"])
+                ck.count("reduced_input_not_clean", r["unclean"])
                 if any(o != "nothing-excluded" for o in r["outcomes"]): nontrivial += 1
                 for o in r["outcomes"]: ck.outcome(o)
                 for k, v in r["worst"].items():
@@ -105,7 +125,8 @@ def main():
     ck.notes.append("largest deviation between a run and its reduced run: %s" % {k: "%.2e" % v for k, v in sorted(worst.items())})
     ck.finish(RULE, extra={"cases_enumerated": len(cases), "cases_completed": done},
               assumptions=["exact approximate coordinates, no instrument heights, noise +-0.4 sigma with a fixed sign pattern; "
-                           "lattice {0,100,200}^2 x {0,10,30}; other reals, larger networks, omitted approximate coordinates of "
+                           "lattice {0,100,200}^2 x {0,10,30}; the POSITION and REPEATED-TARGET families use sigma-apr 10 with angular stdev 10 only "
+                           "(D10, the listed finding, makes the exclusion depend on sigma-apr/stdev otherwise); other reals, larger networks, omitted approximate coordinates of "
                            "determined points and the huge-covariance removal path (needs near-singular geometry) are not covered",
                            "the approximate orientation of a direction set is modelled as documented (median of the estimates); approximate coordinates "
                            "are the <point> values overridden by <coordinates> records in document order (GKFparser::process_point); "
